@@ -64,7 +64,8 @@ fn piece(n: usize, tag: u8) -> Vec<u8> { (0..n).map(|i| tag.wrapping_add((i % 25
 /// C07: every body kind x write sequences (zero-length writes, writes around and beyond the 8 KiB writer buffer) x pre-set framing
 /// headers: the bytes on the wire decode back to the same method/target/body; Connection: close; exactly one consistent framing
 #[test]
-fn vp_native_request_wire_roundtrip() {
+fn vp_native_request_wire_roundtrip() { crate::verif_native_watchdog::watched(vp_native_request_wire_roundtrip_body); }
+fn vp_native_request_wire_roundtrip_body() {
     let sizes = [0usize, 1, 5, 8191, 8192, 8193, 20000];
     let mut seqs: Vec<Vec<Vec<u8>>> = vec![vec![]];
     for (i, &a) in sizes.iter().enumerate() { seqs.push(vec![piece(a, i as u8)]); for (j, &b) in sizes.iter().enumerate() { seqs.push(vec![piece(a, i as u8), piece(b, 50 + j as u8)]); seqs.push(vec![piece(3, 9), piece(a, i as u8), piece(0, 0), piece(b, 50 + j as u8)]); } }
@@ -108,7 +109,8 @@ fn vp_native_request_wire_roundtrip() {
 
 /// C08: request target form and Host field over a URL x proxy matrix
 #[test]
-fn vp_native_target_and_host_matrix() {
+fn vp_native_target_and_host_matrix() { crate::verif_native_watchdog::watched(vp_native_target_and_host_matrix_body); }
+fn vp_native_target_and_host_matrix_body() {
     // cross product of URL shapes: scheme x userinfo (incl. password without user name, empty password) x host (name, upper case,
     // IPv6 literal) x port (none, scheme default, other scheme's default, other) x path x query x fragment
     let mut urls: Vec<String> = Vec::new();
@@ -150,7 +152,8 @@ fn vp_native_target_and_host_matrix() {
 /// and on [::1]; a request for an IPv6 literal arrives at the IPv6 listener with that literal in Host, a proxy given as an IPv6
 /// literal is the peer, and an IPv6 literal that merely embeds an IPv4 address (::127.0.0.1) never reaches the IPv4 listener
 #[test]
-fn vp_native_peer_is_the_url_host() {
+fn vp_native_peer_is_the_url_host() { crate::verif_native_watchdog::watched(vp_native_peer_is_the_url_host_body); }
+fn vp_native_peer_is_the_url_host_body() {
     let (log4, log6) = (Arc::new(Mutex::new(Vec::new())), Arc::new(Mutex::new(Vec::new())));
     let p4 = serve(log4.clone(), |_, _| resp(200, None, "v4"));
     let l6 = match TcpListener::bind("[::1]:0") { Ok(l) => l, Err(e) => { println!("VP-NATIVE peer_is_the_url_host cases=0 (no IPv6 loopback here: {})", e); return; } };
@@ -189,7 +192,8 @@ fn vp_native_peer_is_the_url_host() {
 /// C08 inside a CONNECT tunnel: the CONNECT line names the origin host and its effective port, and the request inside the
 /// tunnel is in origin-form with a Host field that is the origin's host, plus its port only when that is not the scheme default
 #[test]
-fn vp_native_host_inside_tunnel() {
+fn vp_native_host_inside_tunnel() { crate::verif_native_watchdog::watched(vp_native_host_inside_tunnel_body); }
+fn vp_native_host_inside_tunnel_body() {
     let mut cases = 0u64;
     for (url, authority, host, target) in [("https://localhost/x?y=1", "localhost:443", "localhost", "/x?y=1"), ("https://localhost:443/", "localhost:443", "localhost", "/"),
                                            ("https://localhost:8443/a/b", "localhost:8443", "localhost:8443", "/a/b"), ("https://LOCALHOST:80/", "localhost:80", "localhost:80", "/"),
@@ -222,7 +226,8 @@ fn vp_native_host_inside_tunnel() {
 
 /// C16: settings flow by value: session -> request snapshots, request overrides, clones and siblings, header set/append, defaults
 #[test]
-fn vp_native_settings_flow() {
+fn vp_native_settings_flow() { crate::verif_native_watchdog::watched(vp_native_settings_flow_body); }
+fn vp_native_settings_flow_body() {
     let mut cases = 0u64;
     for first in [1usize, 7] { for second in [2usize, 9] { for follow in [true, false] { for compress in [true, false] {
         let mut s = crate::Session::new();
@@ -255,7 +260,8 @@ fn vp_native_settings_flow() {
 /// most recent request builder (setters, header, header_append) is replayed against a plain value model; at the end every request
 /// and every session must equal its model (sessions are observed through a fresh request)
 #[test]
-fn vp_native_settings_sequences() {
+fn vp_native_settings_sequences() { crate::verif_native_watchdog::watched(vp_native_settings_sequences_body); }
+fn vp_native_settings_sequences_body() {
     #[derive(Clone, Debug, PartialEq)]
     struct M { max_headers: usize, max_redirections: u32, follow: bool, compress: bool, timeout: Option<u64>, read_timeout: u64, invalid_certs: bool, invalid_names: bool, connect_timeout: u64, headers: Vec<(String, String)> }
     impl M {
@@ -402,7 +408,8 @@ fn resp(status: u16, location: Option<&str>, body: &str) -> Vec<u8> {
 /// C09/C10: redirect chains: bound, selectivity, Location resolution against the hop that produced it, final URL, body replay,
 /// Host and proxy choice per hop
 #[test]
-fn vp_native_redirect_chains() {
+fn vp_native_redirect_chains() { crate::verif_native_watchdog::watched(vp_native_redirect_chains_body); }
+fn vp_native_redirect_chains_body() {
     let log = Arc::new(Mutex::new(Vec::new()));
     let port = serve(log.clone(), |line, _| {
         let path = line.split(' ').nth(1).unwrap_or("");
@@ -493,7 +500,8 @@ fn serve_early(log: Arc<Mutex<Vec<Seen>>>, reply: impl Fn(&str, u16) -> Vec<u8> 
 /// C10: every hop of a redirect chain that changes port is a complete request of its own: Host of that hop, the caller's header
 /// kept, framing that matches the body written on that hop; for 307/308 the same method and body bytes on every hop, for every body kind
 #[test]
-fn vp_native_redirect_hops_with_bodies() {
+fn vp_native_redirect_hops_with_bodies() { crate::verif_native_watchdog::watched(vp_native_redirect_hops_with_bodies_body); }
+fn vp_native_redirect_hops_with_bodies_body() {
     let log = Arc::new(Mutex::new(Vec::new()));
     // two servers: A/<status>/start -> B/<status>/next -(relative)-> B/<status>/rel -> A/<status>/end -> 200
     let ports: Arc<Mutex<(u16, u16)>> = Arc::new(Mutex::new((0, 0)));
@@ -558,7 +566,8 @@ fn vp_native_redirect_hops_with_bodies() {
 /// C09: redirect chains enumerated: status x chain length x max_redirections x Location form x follow on/off; the server counts
 /// requests before it answers, so the number of requests sent is exact
 #[test]
-fn vp_native_redirect_matrix() {
+fn vp_native_redirect_matrix() { crate::verif_native_watchdog::watched(vp_native_redirect_matrix_body); }
+fn vp_native_redirect_matrix_body() {
     let seen: Arc<Mutex<Vec<String>>> = Arc::new(Mutex::new(Vec::new()));
     let seen2 = seen.clone();
     let port = serve(Arc::new(Mutex::new(Vec::new())), move |line, port| {
@@ -658,7 +667,8 @@ fn vp_native_redirect_matrix() {
 
 /// C08/C10/C11 across hops: the proxy decision is taken again for every hop (no_proxy boundary crossed by a same-scheme redirect)
 #[test]
-fn vp_native_redirect_across_no_proxy_boundary() {
+fn vp_native_redirect_across_no_proxy_boundary() { crate::verif_native_watchdog::watched(vp_native_redirect_across_no_proxy_boundary_body); }
+fn vp_native_redirect_across_no_proxy_boundary_body() {
     let plog = Arc::new(Mutex::new(Vec::new())); let olog = Arc::new(Mutex::new(Vec::new()));
     let origin = serve(olog.clone(), |line, _| if line.contains("/internal") { resp(200, None, "internal") } else if line.contains("/to-ext") { resp(302, Some("http://external.test/ext"), "") } else { resp(404, None, "") });
     let oport = origin;
@@ -688,7 +698,8 @@ fn vp_native_redirect_across_no_proxy_boundary() {
 /// whichever way the caller reads it: the convenience readers return Err, a read loop ends in an error, and what was handed
 /// out before is a prefix of the payload
 #[test]
-fn vp_native_stalled_body_is_an_error() {
+fn vp_native_stalled_body_is_an_error() { crate::verif_native_watchdog::watched(vp_native_stalled_body_is_an_error_body); }
+fn vp_native_stalled_body_is_an_error_body() {
     let payload: Vec<u8> = (0..40u8).map(|i| b'a' + i % 26).collect();
     let mut cases = 0u64;
     let handles: Vec<std::thread::JoinHandle<u64>> = ["chunked-inside-chunk", "chunked-after-chunk", "chunked-in-size-line", "chunked-before-last-crlf", "length"].into_iter().map(|shape| {
@@ -721,7 +732,7 @@ fn vp_native_stalled_body_is_an_error() {
                 }
             });
             let ctx = format!("{} body, the server falls silent, read through {}", shape, helper);
-            let resp = crate::get(format!("http://127.0.0.1:{}/", port)).read_timeout(std::time::Duration::from_millis(1500)).send().unwrap_or_else(|e| panic!("the head arrived completely ({}): {}", ctx, e));
+            let resp = crate::get(format!("http://127.0.0.1:{}/", port)).proxy_settings(crate::ProxySettings::builder().build()).read_timeout(std::time::Duration::from_millis(1500)).send().unwrap_or_else(|e| panic!("the head arrived completely ({}): {}", ctx, e));
             match helper {
                 "bytes" => { let r = resp.bytes(); assert!(r.is_err(), "bytes() reported a complete body of {} bytes ({})", r.map(|b| b.len()).unwrap_or(0), ctx); }
                 "split-bytes" => { let r = resp.split().2.bytes(); assert!(r.is_err(), "ResponseReader::bytes() reported a complete body of {} bytes ({})", r.map(|b| b.len()).unwrap_or(0), ctx); }
@@ -754,7 +765,8 @@ fn vp_native_stalled_body_is_an_error() {
 /// C19: sending returns once the head has arrived, and every body byte that has arrived can be read without waiting for more:
 /// length- and close-delimited bodies, the server pausing after k body bytes, every caller read size (smaller, equal, larger)
 #[test]
-fn vp_native_body_delivered_as_it_arrives() {
+fn vp_native_body_delivered_as_it_arrives() { crate::verif_native_watchdog::watched(vp_native_body_delivered_as_it_arrives_body); }
+fn vp_native_body_delivered_as_it_arrives_body() {
     let mut cases = 0u64;
     for framing in ["length", "close", "chunked-1", "chunked-2", "length+identity", "close+identity", "chunked-1+identity"] { for k in [0usize, 1, 2, 5, 9] { for bsize in [1usize, 3, 9, 10, 16, 8192] {
         if k == 0 && bsize != 1 { continue; }
@@ -784,7 +796,7 @@ fn vp_native_body_delivered_as_it_arrives() {
         });
         let ctx = format!("{}-delimited body{}, server paused after {} of 10 body bytes, caller reads of {} bytes", framing, if identity { " with Content-Encoding: identity" } else { "" }, k, bsize);
         let t0 = std::time::Instant::now();
-        let mut resp = crate::get(format!("http://127.0.0.1:{}/", port)).read_timeout(std::time::Duration::from_millis(4000)).send()
+        let mut resp = crate::get(format!("http://127.0.0.1:{}/", port)).proxy_settings(crate::ProxySettings::builder().build()).read_timeout(std::time::Duration::from_millis(4000)).send()
             .unwrap_or_else(|e| panic!("send() must return once the head has arrived ({}): {}", ctx, e));
         let mut got = Vec::new();
         while got.len() < k {
@@ -814,7 +826,7 @@ fn vp_native_body_delivered_as_it_arrives() {
         let t0 = std::time::Instant::now();
         let url = format!("http://127.0.0.1:{}/", port);
         let rb = if kind.starts_with("HEAD") { crate::head(&url) } else { crate::get(&url) };
-        let resp = rb.read_timeout(std::time::Duration::from_millis(4000)).send()
+        let resp = rb.proxy_settings(crate::ProxySettings::builder().build()).read_timeout(std::time::Duration::from_millis(4000)).send()
             .unwrap_or_else(|e| panic!("send() must return once the head of a body-less response ({}) has arrived: {} after {:?}", kind, e, t0.elapsed()));
         let body = resp.bytes().unwrap_or_else(|e| panic!("the empty body of a {} response must be readable at once: {}", kind, e));
         assert!(body.is_empty(), "{}", kind);
@@ -826,7 +838,8 @@ fn vp_native_body_delivered_as_it_arrives() {
 /// C12: CONNECT handshake: request text (authority with effective port, proxy credentials only), and for every refusal status and
 /// reply shape nothing further is written to the proxy and at most 10 KiB of its body are kept
 #[test]
-fn vp_native_connect_refusals() {
+fn vp_native_connect_refusals() { crate::verif_native_watchdog::watched(vp_native_connect_refusals_body); }
+fn vp_native_connect_refusals_body() {
     let mut cases = 0u64;
     // reply shapes: (with Content-Length?, body length)
     let shapes: [(bool, usize); 6] = [(true, 0), (true, 10240), (true, 10241), (true, 20000), (false, 50), (false, 300_000)];
@@ -1056,7 +1069,8 @@ fn serve_https_tunnelling_proxy_with(log: Arc<Mutex<Vec<TlsHop>>>, valid_localho
 /// TLS session the origin sees the caller's request - headers, credentials, body - and never the proxy's credentials, also when
 /// the tunnelled request is a redirect hop that follows proxied plain-http hops; the TLS session names the origin, not the proxy
 #[test]
-fn vp_native_tunnel_interior() {
+fn vp_native_tunnel_interior() { crate::verif_native_watchdog::watched(vp_native_tunnel_interior_body); }
+fn vp_native_tunnel_interior_body() {
     let mut cases = 0u64;
     for creds in [true, false] { for first_hop in ["https", "http-then-https", "https-then-https"] { for body in [None, Some("topsecret-body")] {
         let log: Arc<Mutex<Vec<Hop>>> = Arc::new(Mutex::new(Vec::new()));
@@ -1154,7 +1168,8 @@ fn vp_native_tunnel_interior() {
 
 /// C05: whatever a proxy sends after refusing CONNECT, at most 10 KiB of it are kept in the error
 #[test]
-fn vp_native_connect_refusal_body_cap() {
+fn vp_native_connect_refusal_body_cap() { crate::verif_native_watchdog::watched(vp_native_connect_refusal_body_cap_body); }
+fn vp_native_connect_refusal_body_cap_body() {
     let mut cases = 0u64;
     for status in [403u16, 407, 500] { for (with_cl, declared, blen) in [(true, 0usize, 0usize), (true, 10240, 10240), (true, 10241, 10241), (true, 300_000, 300_000), (true, 5_000_000, 300_000), (false, 0, 300_000)] {
         let log = Arc::new(Mutex::new(Vec::new()));
@@ -1180,7 +1195,8 @@ fn vp_native_connect_refusal_body_cap() {
 /// values in log order; iteration = a reordering of the log that keeps every name's values in order and has as many entries).
 /// Here every operation sequence up to length 5 over a small alphabet is run on the real map and on that model.
 #[test]
-fn vp_native_header_map_model() {
+fn vp_native_header_map_model() { crate::verif_native_watchdog::watched(vp_native_header_map_model_body); }
+fn vp_native_header_map_model_body() {
     use http::header::{HeaderMap, HeaderName, HeaderValue};
     let names = ["x-a", "X-A", "host", "Accept"];
     let values = ["1", "2"];
@@ -1261,7 +1277,8 @@ fn wire_of<B: Body>(b: crate::RequestBuilder<B>) -> Req {
 /// C07: methods, query parameters (param/params/query, special characters, duplicates, pre-existing query), authentication helpers,
 /// header/header_append, and every library body kind (text, bytes, file, json, json_streaming, form) with its default Content-Type
 #[test]
-fn vp_native_builder_features_roundtrip() {
+fn vp_native_builder_features_roundtrip() { crate::verif_native_watchdog::watched(vp_native_builder_features_roundtrip_body); }
+fn vp_native_builder_features_roundtrip_body() {
     use http::Method;
     let mut cases = 0u64;
     for m in [Method::GET, Method::POST, Method::PUT, Method::DELETE, Method::HEAD, Method::OPTIONS, Method::PATCH, Method::TRACE] {
@@ -1376,7 +1393,8 @@ impl Rng {
 /// C07: 3000 requests built from random combinations of method, URL shape, query parameters, caller headers (repeated names,
 /// non-UTF-8 bytes), an authentication helper and a body kind; the bytes written decode back to what was built
 #[test]
-fn vp_native_generated_requests_roundtrip() {
+fn vp_native_generated_requests_roundtrip() { crate::verif_native_watchdog::watched(vp_native_generated_requests_roundtrip_body); }
+fn vp_native_generated_requests_roundtrip_body() {
     use http::Method;
     let methods = [Method::GET, Method::POST, Method::PUT, Method::DELETE, Method::PATCH, Method::OPTIONS];
     let bases = ["http://h.test", "http://h.test/", "http://h.test/a/b%20c", "http://user:pw@h.test:8080/p?pre=0", "http://[::1]:81/v6?x", "http://H.Test/Case?a=1&a=2#frag", "https://h.test/s?"];
